@@ -1916,7 +1916,10 @@ pub fn c05exec(args: &[String]) {
     let mut bad: Vec<Value> = vec![];
     let mut n = 0u64;
     for (fi, fr) in frames.iter().enumerate() {
-        for strat in STRATS {
+        // every strategy on a fresh decoder; the incremental ones again on a decoder that has just finished a frame with an
+        // 8 MiB window (the bound is about THIS frame's window, whatever the decoder saw before)
+        let plan: Vec<(&str, bool)> = STRATS.iter().map(|s| (*s, false)).chain(["blocks1", "bytes1", "bytes1m"].iter().map(|s| (*s, true))).collect();
+        for (strat, warm) in plan {
             n += 1;
             let requested: usize = requested_of(strat);
             let slack = fr.bytes.len() * 2 + fr.content.len().min(1 << 22) + (4 << 20);
@@ -1924,7 +1927,7 @@ pub fn c05exec(args: &[String]) {
             let allowed_held = if strat == "all" || strat == "decode_all" || strat == "slice" { usize::MAX } else { requested + MB };
             let cap = (allowed_heap * 4).max(256 << 20);
             let mut child = std::process::Command::new(&exe)
-                .args(["c05case", &args[0], &fi.to_string(), strat])
+                .args(["c05case", &args[0], &fi.to_string(), strat, if warm { "warm" } else { "fresh" }])
                 .env("VH_HEAP_CAP", cap.to_string())
                 .stdout(std::process::Stdio::piped())
                 .stderr(std::process::Stdio::null())
@@ -1954,7 +1957,7 @@ pub fn c05exec(args: &[String]) {
             let row = match (status, serde_json::from_str::<Value>(out.trim())) {
                 (None, _) => {
                     why.push("no result within 60 s of CPU time (hang or unbounded expansion)".to_string());
-                    json!({"frame": fi + 1, "strategy": strat, "err": "deadline", "finished": false, "held_beyond_window": 0, "heap_peak": 0, "win": fr.win, "valid": fr.valid})
+                    json!({"frame": fi + 1, "strategy": strat, "reused": warm, "err": "deadline", "finished": false, "held_beyond_window": 0, "heap_peak": 0, "win": fr.win, "valid": fr.valid})
                 }
                 (Some(st), Ok(mut row)) if st.success() => {
                     row["allowed_heap"] = json!(allowed_heap);
@@ -1962,7 +1965,7 @@ pub fn c05exec(args: &[String]) {
                 }
                 (Some(st), _) => {
                     why.push(format!("the decoding process died ({st}): heap cap of {cap} bytes exceeded or crash"));
-                    json!({"frame": fi + 1, "strategy": strat, "err": "died", "finished": false, "held_beyond_window": 0, "heap_peak": cap, "win": fr.win, "valid": fr.valid})
+                    json!({"frame": fi + 1, "strategy": strat, "reused": warm, "err": "died", "finished": false, "held_beyond_window": 0, "heap_peak": cap, "win": fr.win, "valid": fr.valid})
                 }
             };
             let err = row["err"].as_str().unwrap_or("").to_string();
@@ -1974,6 +1977,15 @@ pub fn c05exec(args: &[String]) {
             }
             if held > allowed_held {
                 why.push(format!("decoder held {held} bytes beyond the window, allowed are requested + one block = {allowed_held}"));
+            }
+            // what one collect() hands out was held by the decoder: never more than window + requested + one block
+            let drain = row["max_drain"].as_u64().unwrap_or(0) as usize;
+            if allowed_held != usize::MAX && drain > fr.win + allowed_held {
+                why.push(format!(
+                    "one collect() handed out {drain} bytes{}: the decoder held more than window + requested + one block = {}",
+                    if warm { " (decoder reused after a frame with an 8 MiB window)" } else { "" },
+                    fr.win + allowed_held
+                ));
             }
             if peak > allowed_heap && err != "died" {
                 why.push(format!("heap peak {peak} exceeds 2 * (window + requested + 128 KiB) + slack = {allowed_heap}"));
@@ -2011,12 +2023,22 @@ pub fn c05case(args: &[String]) {
     let fi: usize = args[1].parse().unwrap();
     let fr = &frames[fi];
     let strat = &args[2].as_str();
+    let warm = args.get(3).map(|s| s == "warm").unwrap_or(false);
     {
         {
+            let mut dec = FrameDecoder::new();
+            if warm {
+                // a complete one-byte frame declaring an 8 MiB window (descriptor 0x68), decoded and drained
+                let w: Vec<u8> = vec![0x28, 0xB5, 0x2F, 0xFD, 0x00, 0x68, 0x09, 0x00, 0x00, 0x5A];
+                let mut src = Src { data: w, pos: 0, chunk: 0 };
+                dec.reset(&mut src).expect("warm-up frame header");
+                dec.decode_blocks(&mut src, BlockDecodingStrategy::All).expect("warm-up frame block");
+                assert_eq!(dec.collect().unwrap_or_default(), vec![0x5A]);
+            }
+            let max_drain = std::cell::Cell::new(0usize);
             let base = crate::alloc_now();
             crate::alloc_reset_peak();
             let r = std::panic::catch_unwind(std::panic::AssertUnwindSafe(|| -> (String, usize, bool) {
-                let mut dec = FrameDecoder::new();
                 let mut max_held = 0usize; // bytes held beyond the window
                 let mut err = String::new();
                 let mut hold = |d: &FrameDecoder, max_held: &mut usize| {
@@ -2047,7 +2069,8 @@ pub fn c05case(args: &[String]) {
                             if *strat != "all" {
                                 hold(&dec, &mut max_held);
                             }
-                            let _ = dec.collect();
+                            let got = dec.collect().map(|v| v.len()).unwrap_or(0);
+                            max_drain.set(max_drain.get().max(got));
                         }
                     }
                     "stream1" | "stream64k" => {
@@ -2111,7 +2134,10 @@ pub fn c05case(args: &[String]) {
                 Ok(x) => x,
                 Err(p) => (format!("panic: {}", panic_msg(p)), 0, false),
             };
-            println!("{}", json!({"frame": fi + 1, "strategy": strat, "err": err, "finished": fin, "held_beyond_window": held, "heap_peak": peak, "win": fr.win, "valid": fr.valid}));
+            println!(
+                "{}",
+                json!({"frame": fi + 1, "strategy": strat, "reused": warm, "err": err, "finished": fin, "held_beyond_window": held, "max_drain": max_drain.get(), "heap_peak": peak, "win": fr.win, "valid": fr.valid})
+            );
         }
     }
 }
